@@ -81,6 +81,7 @@ func runC09(r *ev.Run) {
 		ids.min = 1 << 24
 		durable := map[uint32]bool{}
 		ever := map[uint32]bool{}
+		docVecs := map[uint32][]float32{}
 		hashes := map[string]string{} // segment file -> sha256 at the time it was first seen after an acknowledged flush
 		var maxSeen uint64
 		nSessions := 1 + rng.IntN(4)
@@ -134,6 +135,32 @@ func runC09(r *ev.Run) {
 				rep("store.durable-document-lost."+when, fmt.Sprintf("%s: %d of %d durable documents not found (by modality: %v), e.g. %v", when, total/len(mods), len(durable), mods, head(missing[mods[0]], 5)))
 			}
 			r.Count("probes:all-modalities:"+when, 1)
+			// IVF at its DEFAULT probe count: a document queried with its own vector lies in the cluster whose centroid is
+			// nearest to the query, so it must come back (distance ~0) however the fresh template was trained
+			if p.VecKind == "ivf" && !dead {
+				n := 0
+				for _, id := range sortedKeys(durable) {
+					if n++; n > 12 {
+						break
+					}
+					res, err := s.NewSearch().WithVector(cloneF32(docVecs[id])).WithK(bigK).Execute()
+					if err != nil {
+						rep("store.search-error", when+": "+err.Error())
+						break
+					}
+					found := false
+					for _, x := range res {
+						if x.ID == id {
+							found = true
+						}
+					}
+					if !found {
+						rep("store.durable-document-lost."+when+".ivf-self-query-default-probes", fmt.Sprintf("%s: durable document %d is not returned by a vector query with its own vector at the default probe count (%d results)", when, id, len(res)))
+						break
+					}
+					r.Count("probes:ivf-self-query", 1)
+				}
+			}
 		}
 		for sess := 0; sess < nSessions && !dead; sess++ {
 			s, err := p.open(dir)
@@ -162,6 +189,7 @@ func runC09(r *ev.Run) {
 				}
 				ever[d.ID] = true
 				pending[d.ID] = true
+				docVecs[d.ID] = cloneF32(d.Vec)
 				log = append(log, fmt.Sprintf("add %d", d.ID))
 				if rng.IntN(8) == 0 {
 					if err := s.Flush(); err != nil {
@@ -260,6 +288,16 @@ func runC09(r *ev.Run) {
 		r.Count("cases:vec="+p.VecKind, 1)
 		r.Eval(nSessions >= 2 && midFlushes >= 1 && rotations >= 1 && len(segs) >= 2, ev.Digest(p.String(), nSessions, midFlushes, len(durable), ci))
 	})
+	c09AckThenRestart(r)
+}
+
+// c09AckThenRestart: "after Flush() has returned nil" includes the case where the background flush worker is in the middle
+// of writing when Flush is called; the process may end right after the acknowledgement (same engine as C10's ack-then-crash).
+func c09AckThenRestart(r *ev.Run) {
+	ctl := newHookCtl()
+	ctl.install()
+	defer ctl.uninstall()
+	c10AckThenCrash(r, ctl)
 }
 
 func head(l []uint32, n int) []uint32 {
